@@ -885,6 +885,13 @@ func (s *Session) snapshot() map[string]string {
 var headerHeights = []int64{0, 1, 2, 100, 999, 1000, 1 << 20, 1<<31 - 1, 1 << 31, 1 << 32, 1<<62 + 1, 1<<63 - 1}
 var headerTimes = []int64{0, 1, 86399, 86400, 1700000000, 1767225600, 2000000000, 253402300799}
 
+var expiredGoCtx, cancelledGoCtx = func() (context.Context, context.Context) {
+	a, _ := context.WithDeadline(context.Background(), time.Unix(1, 0)) //nolint:govet
+	b, cancel := context.WithCancel(context.Background())
+	cancel()
+	return a, b
+}()
+
 func (s *Session) varyHeader(op Op) {
 	if s.w == nil {
 		return
@@ -892,6 +899,17 @@ func (s *Session) varyHeader(op Op) {
 	h := fnv.New64a()
 	h.Write([]byte(op.String()))
 	x := h.Sum64()
+	// the Go context under the sdk.Context: one op in eight runs under a context whose deadline has passed, one in eight
+	// under a cancelled one (a gRPC query whose client went away, a node shutting down).  Chain state does not depend on
+	// either, so no result may (C18: "no result depends on wall-clock time").
+	switch (x >> 56) % 8 {
+	case 0:
+		s.w.ctx = s.w.ctx.WithContext(expiredGoCtx)
+	case 1:
+		s.w.ctx = s.w.ctx.WithContext(cancelledGoCtx)
+	default:
+		s.w.ctx = s.w.ctx.WithContext(context.Background())
+	}
 	// a "block" is a run of ops under one header (transactions of one block share height and time, and so do the
 	// messages of one transaction): a new header starts at about one op in four, never inside an open transaction
 	if s.headerSet && (s.w.inBatch || x%4 != 0 || op.KV.get("blk") == "same") {
